@@ -339,7 +339,8 @@ class Runner:
                 return f'keys={show_nats(cids)}'
             if kind == 'packAll':
                 c.pack_all_loose(compress=_mode_obj(rc.dos, op['mode']), validate_objects=op.get('validate', True),
-                                 clean_loose_per_pack=op.get('clean', False))
+                                 clean_loose_per_pack=op.get('clean', False),
+                                 **({'do_fsync': False} if op.get('do_fsync') is False else {}))
                 return 'ok'
             if kind == 'clean':
                 c.clean_storage(vacuum=op.get('vacuum', False))
@@ -486,6 +487,8 @@ class Runner:
                 return f'addPackedO {b01(op["compress"])} {b01(op["no_holes"])} {b01(rt)} 0 {show_nats(op["cs"])}'
             return f'addPacked {b01(op["compress"])} {b01(op["no_holes"])} {b01(rt)} {show_nats(op["cs"])}'
         if kind == 'packAll':
+            if op.get('do_fsync') is False:
+                return f'packAllO {parts[5]} 0 {parts[6]} {parts[7]}'
             return f'packAll {parts[5]} {parts[6]} {parts[7]}'
         if kind == 'delete':
             return f'delete {parts[4]}'
